@@ -4,8 +4,8 @@ import DC.Prelude.Utf8B
 /-!
 # `bufio.Reader` as the lexer uses it, over a scripted `io.Reader`
 
-Mirror of `$GOROOT/src/bufio/bufio.go` (go1.25.0): `NewReaderSize` (bufio.go:48), `fill` (bufio.go:100), `readErr`
-(bufio.go:130), `Peek` (bufio.go:144), `ReadRune` (bufio.go:305) — the only `bufio.Reader` methods
+Mirror of `$GOROOT/src/bufio/bufio.go` (go1.25.0): `NewReaderSize` (bufio.go:50), `fill` (bufio.go:99), `readErr`
+(bufio.go:129), `Peek` (bufio.go:143), `ReadRune` (bufio.go:306) — the only `bufio.Reader` methods
 `/repo/lexer/lexer.go` calls (`ReadRune` in `readChar` lexer.go:47, `Peek` in `peek` lexer.go:74).
 The lexer's own wrappers `recordErr` (lexer.go:66), `peek` (lexer.go:73) and the `eof` rule of `readChar`
 (lexer.go:41-53) are mirrored at the end (`Client`).
@@ -48,9 +48,9 @@ def sread (k : Nat) : Script → (Bytes × Option Err) × Script
 
 /-- `bufio.defaultBufSize` (bufio.go:19) -/
 def defaultBufSize : Nat := 4096
-/-- `bufio.minReadBufferSize` (bufio.go:43) -/
+/-- `bufio.minReadBufferSize` (bufio.go:44) -/
 def minReadBufferSize : Nat := 16
-/-- `bufio.maxConsecutiveEmptyReads` (bufio.go:44) -/
+/-- `bufio.maxConsecutiveEmptyReads` (bufio.go:45) -/
 def maxConsecutiveEmptyReads : Nat := 100
 
 /-- `bufio.Reader` (bufio.go:34). `buf` is the unread part `b.buf[b.r:b.w]`; `cap = len(b.buf)`; `b.w = r + buf.length`.
@@ -70,14 +70,14 @@ structure BR where
 /-- `b.w` -/
 def BR.w (b : BR) : Nat := b.r + b.buf.length
 
-/-- `NewReaderSize(rd, size)` (bufio.go:48) for an `rd` that is not itself a `*bufio.Reader`. -/
+/-- `NewReaderSize(rd, size)` (bufio.go:50) for an `rd` that is not itself a `*bufio.Reader`. -/
 def newReaderSize (rd : Script) (size : Nat) : BR :=
   { rd := rd, cap := max size minReadBufferSize, buf := [], r := 0, err := none, panicked := false, log := [] }
 
 /-- `NewReader(rd)` (bufio.go:62) -/
 def newReader (rd : Script) : BR := newReaderSize rd defaultBufSize
 
-/-- the read loop of `fill` (bufio.go:113-126): `i` tries left; `b.r = 0` here, so `b.buf[b.w:]` has
+/-- the read loop of `fill` (bufio.go:112-126): `i` tries left; `b.r = 0` here, so `b.buf[b.w:]` has
 `cap - buf.length` bytes. -/
 def fillLoop : Nat → BR → BR
   | 0, b => { b with err := some .noProgress, log := b.log ++ [.noProgress] }
@@ -88,13 +88,13 @@ def fillLoop : Nat → BR → BR
     | some e => { b' with err := some e, log := b'.log ++ [e] }
     | none => if res.1.1.length > 0 then b' else fillLoop i b'
 
-/-- `fill` (bufio.go:100): slide, panic if full, then up to 100 reads. -/
+/-- `fill` (bufio.go:99): slide, panic if full, then up to 100 reads. -/
 def fill (b : BR) : BR :=
-  let b := { b with r := 0 }                      -- bufio.go:102-106 slide existing data to the beginning
-  if b.buf.length ≥ b.cap then { b with panicked := true }   -- bufio.go:108
+  let b := { b with r := 0 }                      -- bufio.go:101-105 slide existing data to the beginning
+  if b.buf.length ≥ b.cap then { b with panicked := true }   -- bufio.go:107-109
   else fillLoop maxConsecutiveEmptyReads b
 
-/-- `readErr` (bufio.go:130): returns the stored error and clears it. -/
+/-- `readErr` (bufio.go:129): returns the stored error and clears it. -/
 def readErr (b : BR) : Option Err × BR := (b.err, { b with err := none })
 
 /-- termination measure of the two fill loops: an error ends them, otherwise the buffer grows. -/
@@ -135,23 +135,23 @@ theorem fill_room (b : BR) (h : b.buf.length < b.cap) (he : b.err = none) (hp : 
   have := fillLoop_room maxConsecutiveEmptyReads { b with r := 0 } h he hp
   simpa [BR.room] using this
 
-/-- the loop of `Peek` (bufio.go:152): `for b.w-b.r < n && b.w-b.r < len(b.buf) && b.err == nil { b.fill() }`.
+/-- the loop of `Peek` (bufio.go:151): `for b.w-b.r < n && b.w-b.r < len(b.buf) && b.err == nil { b.fill() }`.
 (`panicked` is part of the guard only to make the definition total; it is never set, see `peekLoop_ok`.) -/
 def peekLoop (n : Nat) (b : BR) : BR :=
   if h : b.buf.length < n ∧ b.buf.length < b.cap ∧ b.err = none ∧ b.panicked = false then peekLoop n (fill b) else b
 termination_by b.room
 decreasing_by exact fill_room b h.2.1 h.2.2.1 h.2.2.2
 
-/-- `Peek(n)` for `n ≥ 0` (bufio.go:144). Result `(bytes, err)`. -/
+/-- `Peek(n)` for `n ≥ 0` (bufio.go:143). Result `(bytes, err)`. -/
 def peek (n : Nat) (b : BR) : (Bytes × Option Err) × BR :=
   let b := peekLoop n b
-  if n > b.cap then ((b.buf, some .bufferFull), b)          -- bufio.go:156
-  else if b.buf.length < n then                              -- bufio.go:162 avail < n
+  if n > b.cap then ((b.buf, some .bufferFull), b)          -- bufio.go:155
+  else if b.buf.length < n then                              -- bufio.go:161 avail < n
     let e := readErr b
-    ((b.buf, some (e.1.getD .bufferFull)), e.2)              -- bufio.go:165-168
+    ((b.buf, some (e.1.getD .bufferFull)), e.2)              -- bufio.go:164-168
   else ((b.buf.take n, none), b)
 
-/-- the loop of `ReadRune` (bufio.go:306):
+/-- the loop of `ReadRune` (bufio.go:307):
 `for b.r+utf8.UTFMax > b.w && !utf8.FullRune(b.buf[b.r:b.w]) && b.err == nil && b.w-b.r < len(b.buf) { b.fill() }` -/
 def rrLoop (b : BR) : BR :=
   if h : b.buf.length < Utf8B.utfMax ∧ Utf8B.fullRune b.buf = false ∧ b.err = none ∧ b.buf.length < b.cap ∧ b.panicked = false
@@ -159,7 +159,7 @@ def rrLoop (b : BR) : BR :=
 termination_by b.room
 decreasing_by exact fill_room b h.2.2.2.1 h.2.2.1 h.2.2.2.2
 
-/-- the decoding step of `ReadRune` (bufio.go:313-316) on a non-empty buffer -/
+/-- the decoding step of `ReadRune` (bufio.go:314-317) on a non-empty buffer -/
 def decodeHead (buf : Bytes) : Nat × Nat :=
   match buf with
   | [] => (0, 0)
@@ -172,10 +172,10 @@ structure RuneRes where
   err : Option Err
   deriving DecidableEq, Repr, Inhabited
 
-/-- `ReadRune()` (bufio.go:305). -/
+/-- `ReadRune()` (bufio.go:306). -/
 def readRune (b : BR) : RuneRes × BR :=
   let b := rrLoop b
-  if b.buf.isEmpty then                                       -- bufio.go:310 b.r == b.w
+  if b.buf.isEmpty then                                       -- bufio.go:311 b.r == b.w
     let e := readErr b
     ({ rune := 0, size := 0, err := e.1 }, e.2)
   else
